@@ -93,6 +93,10 @@ var checks = map[string]checkCfg{
 		Phases: []phase{rp("rapid", "^TestC13$", 6, 4000, 16, 100000),
 			{Name: "fuzz-call", Variant: "plain", ThoroughOnly: true, Fuzz: "^FuzzC13Call$", FuzzSeconds: 90, ThoroughShards: 1},
 			{Name: "fuzz-record", Variant: "plain", ThoroughOnly: true, Fuzz: "^FuzzC13Record$", FuzzSeconds: 90, ThoroughShards: 1}}},
+	"C14": {Level: "exploration", Technique: "rapid requests x server states; every reply strictly decoded by the independent RFC 1831/1813 decoder",
+		Rule:        "each case fixes a server state (normal, read-only, per-operation rate limits exhausted, connection-level rate limit over a record-marking connection, policy drain established by parking a request on a backend gate while UpdatePolicyOptions waits) and issues 1-12 calls with program in {NFS, MOUNT, portmap number, 0, random}, version 0-4, procedure 0-23, arguments well-formed (live/stale/foreign handles, valid/invalid names), truncated at a 4-byte cut, random or over-long; non-trivial = some reply was not NFS3_OK/success, or the state is not normal; distinct = FNV-64 of the case JSON",
+		Assumptions: append([]string{"MOUNT v1 result bodies are not judged (only v3 is in the statement)"}, baseAssumptions...),
+		Phases:      []phase{rp("rapid", "^TestC14$", 6, 1200, 16, 15000)}},
 	"C02": {Level: "exploration", Technique: "rapid histories vs POSIX tree model + cached-vs-uncached differential",
 		Rule:        "cases are rapid-generated sequential histories of LOOKUP/CREATE/MKDIR/SYMLINK/REMOVE/RMDIR/RENAME/READDIR(PLUS)/GETATTR/READLINK over names {a,b,c} to depth 3, addressed through every handle ever issued (stale ones included); each history runs under the all-off baseline and k cached configurations (quick 3, thorough 6 of 15); non-trivial = a read-type request on a name or directory affected by an earlier successful mutation, executed under a configuration with at least one cache on; distinct = FNV-64 of the case JSON",
 		Assumptions: append([]string{"documented latitude L1-L7 of DESIGN.md §5 C02 (REMOVE of empty dir, UNCHECKED/EXCLUSIVE on existing objects, error code identity not compared against the model, path-bound handles)"}, baseAssumptions...),
